@@ -60,7 +60,13 @@ class P(Process):
         self.B = B
         self.dr = (dlo, dhi)
         ctx = run.ctx
-        self.ts_const = ctx.int('tsc', 1, B) if mode == 'const' else None
+        grid = run.cfg.get('ts_grid')
+        if grid:
+            # concrete (possibly off-integer, dyadic) timesteps chosen by the
+            # solver-driven choice: times concrete, values symbolic
+            self.ts_const = grid[ctx.choice('tsg', len(grid))]
+        else:
+            self.ts_const = ctx.int('tsc', 1, B) if mode == 'const' else None
         self.c_const = ctx.flag('cc') if cond == 'const' else None
         self.polls = []      # dict(g, front, ts, cond, call)
         self.ncalls = []     # dict(k, ts, g, start, d, end, force, poll)
@@ -192,7 +198,10 @@ def drive(ctx, cfg, run, on_call=None):
     e = run.engine
     M = cfg['M']
     for j in range(M):
-        iv = ctx.int('iv', 1, cfg.get('IV', cfg['B']))
+        if cfg.get('iv_grid'):
+            iv = cfg['iv_grid'][ctx.choice('ivg', len(cfg['iv_grid']))]
+        else:
+            iv = ctx.int('iv', 1, cfg.get('IV', cfg['B']))
         if cfg['forces'] == 'all' or (cfg['forces'] == 'last' and j == M - 1):
             force = True
         else:
